@@ -289,6 +289,50 @@ example : ∃ c : Circuit, GoodCircuit c ∧ 0 < c.N ∧
 
 /-! ### Counter-examples to the unrestricted statement (recorded findings) -/
 
+/-- `CSIGN` on a tree whose `_GATE_NAME_TO_QASM_NAME` has no entry for it: the definition resolver calls
+`QubitCircuit._gate_CSIGN`, which does not exist — the export CRASHES (AttributeError); it neither exports the gate
+nor refuses it.  (On a tree with fix C10-4 the hypothesis is false; see `export_csign_repaired`.) -/
+theorem export_csign_counterexample : lookup Gen.gateNameToQasm cs!"CSIGN" = none →
+    exportCircuit ⟨2, 0, [.gate ⟨cs!"CSIGN", some [0], some [1], .none, none⟩]⟩ = .error .attr := by
+  first
+    | exact fun h => absurd h (by decide)
+    | exact fun _ => rfl
+
+/-- `CSIGN` and `CZ` on a tree with fix C10-4 (`"CSIGN": "cz"`, `"CZ": "cz"`): both are written as the `qelib1.inc`
+gate `cz control,target`, and the text is accepted by the strict recogniser. -/
+theorem export_csign_repaired : lookup Gen.gateNameToQasm cs!"CSIGN" = some cs!"cz" →
+    lookup Gen.gateNameToQasm cs!"CZ" = some cs!"cz" →
+    ∃ lines, exportCircuit ⟨2, 0, [.gate ⟨cs!"CSIGN", some [0], some [1], .none, none⟩,
+        .gate ⟨cs!"CZ", some [1], some [0], .none, none⟩]⟩ = .ok lines ∧
+      cs!"cz q[1],q[0];" ∈ lines ∧ cs!"cz q[0],q[1];" ∈ lines ∧ acceptProgram lines = true := by
+  first
+    | exact fun h => absurd h (by decide)
+    | exact fun _ _ => ⟨_, rfl, by decide, by decide, by decide⟩
+
+/-- on such a tree `CSIGN` and `CZ` belong to the class of `export_valid_partial`, `export_den`, `roundtrip_den`
+(`exportShape` = the base rows + the rows the regenerated name table writes as `cz`): the exported `cz` call has the
+circuit's unitary, and the importer reads it back as the library gate `CZ` -/
+example : lookup Gen.gateNameToQasm cs!"CSIGN" = some cs!"cz" → lookup Gen.gateNameToQasm cs!"CZ" = some cs!"cz" →
+    GoodCircuit ⟨2, 0, [.gate ⟨cs!"CSIGN", some [0], some [1], .none, none⟩,
+      .gate ⟨cs!"CZ", some [1], some [0], .none, none⟩]⟩ := by
+  first
+    | exact fun h => absurd h (by decide)
+    | (intro _ _ op hop
+       simp only [List.mem_cons, List.not_mem_nil, or_false] at hop
+       rcases hop with rfl | rfl <;>
+         exact ⟨_, rfl, ⟨by decide, by decide, by decide, by decide, by decide, by decide, by decide⟩⟩)
+
+/-- what `cz` means: the standard's expansion of `qelib1.inc`'s `cz` is the controlled-Z matrix up to one phase
+(control = first qubit) — the documented matrix of the library gates `CZ` / `CSIGN` (`compactC .CZ`) -/
+theorem export_cz_meaning :
+    (∃ ps, expandDef qelib1.reverse cs!"cz" = .ok ps ∧ PhaseEq (den2 (envOf []) ps) (ctrl Zm)) ∧
+    ∀ θ : ℝ, compactC .CZ θ = some ⟨2, m2 (ctrl Zm)⟩ :=
+  ⟨shortcut_cz, compactC_CZ⟩
+
+/-- exactly one of the two CSIGN statements has a true hypothesis on a recognised tree -/
+example : lookup Gen.gateNameToQasm cs!"CSIGN" = none ∨ lookup Gen.gateNameToQasm cs!"CSIGN" = some cs!"cz" := by
+  decide
+
 /-- A measurement is exported as `measure q[0] -> c[0]` — without the terminating `;`:
 the text is emitted (no refusal) and is not valid OpenQASM 2.0. -/
 theorem export_measure_counterexample :
